@@ -47,11 +47,18 @@ inductive Err where
   | modelBadInput              -- the case file is malformed (never produced by the generators)
   deriving Repr, DecidableEq
 
+/-- A method field the client reads or hands back (see DESIGN.md Appendix A). -/
+inductive Field where
+  | nat (n : Nat)
+  | bool (b : Bool)
+  | bytes (bs : Bytes)
+  deriving Repr, DecidableEq
+
 /-- An inbound frame as amq-protocol's parser reports it; `fields` are the method's fields the
-    client reads (see DESIGN.md Appendix A), opaque canonical tokens otherwise. -/
+    client reads, in wire order. -/
 inductive Frame where
   | heartbeat (ch : Nat)
-  | method (ch cls mid : Nat) (fields : List String)
+  | method (ch cls mid : Nat) (fields : List Field)
   | header (ch classId size : Nat) (props : Bytes)
   | body (ch : Nat) (payload : Bytes)
   deriving Repr, DecidableEq
@@ -77,7 +84,7 @@ inductive LMsg where
 
 /-- `Result<ChannelMessage>` on a reply queue. -/
 inductive Reply where
-  | method (cls mid : Nat) (fields : List String)
+  | method (cls mid : Nat) (fields : List Field)
   | consumeOk (tag : Bytes) (qid : Nat)
   | getNone
   | getSome (ch dtag : Nat) (redelivered : Bool) (exchange rk : Bytes) (count : Nat) (props body : Bytes)
@@ -393,12 +400,6 @@ def drainSlots (c : Conn) (replyOf : Reply) (consOf : CMsg) : Conn × Option Err
         | (c2, none) => go (dropSlotEnds c2 s) rest
   go c0 all
 
-def parseNatTok (s : String) : Option Nat := s.toNat?
-def parseBoolTok : String → Option Bool
-  | "t" => some true
-  | "f" => some false
-  | _ => none
-
 /-- Deliver a completed content message (`CollectorResult`). -/
 def dispatchContent (c : Conn) (n : Nat) (slot : Slot) (ct : Content) : Conn × Option Err :=
   match ct.kind with
@@ -454,7 +455,7 @@ def isNotAllowed (cls mid : Nat) : Bool :=
                 (50, 30), (50, 50)]
 
 /-- `process` on a method frame for channel `n ≠ 0`. -/
-def processChannelMethod (c : Conn) (n cls mid : Nat) (fields : List String) (dbgClass : Bytes) :
+def processChannelMethod (c : Conn) (n cls mid : Nat) (fields : List Field) (dbgClass : Bytes) :
     Conn × Option Err :=
   let withSlot (k : Slot → Conn × Option Err) : Conn × Option Err :=
     match slotGet c n with
@@ -462,9 +463,7 @@ def processChannelMethod (c : Conn) (n cls mid : Nat) (fields : List String) (db
     | .error e => (c, some e)
   match cls, mid, fields with
   -- server-initiated channel close
-  | 20, 40, [code, text] =>
-    match parseNatTok code, fromHex text with
-    | some code, some text =>
+  | 20, 40, [.nat code, .bytes text] =>
       withSlot fun slot =>
         let c1 := removeSlot c n
         match sendReply c1 slot.lid (.err (.serverClosedChannel n code text)) with
@@ -475,7 +474,6 @@ def processChannelMethod (c : Conn) (n cls mid : Nat) (fields : List String) (db
             let c4 := dropSlotEnds c3 slot
             ({ c4 with nondet := c4.nondet || decide (slot.consumers.length > 1) }, some e)
           | (c3, none) => (dropSlotEnds (pushOut c3 (channelCloseOk n)) slot, none)
-    | _, _ => (c, some .modelBadInput)
   -- server ack for a client-initiated channel close
   | 20, 41, _ =>
     match lookupN n c.slots with
@@ -491,9 +489,7 @@ def processChannelMethod (c : Conn) (n cls mid : Nat) (fields : List String) (db
           ({ c4 with nondet := c4.nondet || decide (slot.consumers.length > 1) }, some e)
         | (c3, none) => (dropSlotEnds c3 slot, none)
   -- consume-ok
-  | 60, 21, [tag] =>
-    match fromHex tag with
-    | some tag =>
+  | 60, 21, [.bytes tag] =>
       withSlot fun slot =>
         match lookupB tag slot.consumers with
         | some _ => (c, some (.duplicateConsumerTag n tag))
@@ -506,11 +502,8 @@ def processChannelMethod (c : Conn) (n cls mid : Nat) (fields : List String) (db
             -- the reply (and the receiver inside it) is dropped
             (dropReply c3 (.consumeOk tag qid), some e)
           | (c3, none) => (c3, none)
-    | none => (c, some .modelBadInput)
   -- server-initiated cancel
-  | 60, 30, [tag, nowait] =>
-    match fromHex tag, parseBoolTok nowait with
-    | some tag, some nowait =>
+  | 60, 30, [.bytes tag, .bool nowait] =>
       withSlot fun slot =>
         let r : Conn × Option Err :=
           match lookupB tag slot.consumers with
@@ -523,15 +516,12 @@ def processChannelMethod (c : Conn) (n cls mid : Nat) (fields : List String) (db
         match r with
         | (c2, some e) => (c2, some e)
         | (c2, none) => (if nowait then c2 else pushOut c2 (basicCancelOk n tag), none)
-    | _, _ => (c, some .modelBadInput)
   -- cancel-ok
-  | 60, 31, [tag] =>
-    match fromHex tag with
-    | some tag =>
+  | 60, 31, [.bytes tag] =>
       withSlot fun slot =>
         let consumer := lookupB tag slot.consumers
         let c1 := setSlot c n { slot with consumers := eraseB tag slot.consumers }
-        match sendReply c1 slot.lid (.method 60 31 [toHex tag]) with
+        match sendReply c1 slot.lid (.method 60 31 [.bytes tag]) with
         | (c2, some e) => ((match consumer with | some q => dropConsTx c2 q | none => c2), some e)
         | (c2, none) =>
           match consumer with
@@ -540,34 +530,20 @@ def processChannelMethod (c : Conn) (n cls mid : Nat) (fields : List String) (db
             | (c3, some e) => (dropConsTx c3 qid, some e)
             | (c3, none) => (dropConsTx c3 qid, none)
           | none => (c2, none)
-    | none => (c, some .modelBadInput)
   -- deliver / return / get-ok open a content message
-  | 60, 60, [tag, dtag, red, ex, rk] =>
-    match fromHex tag, parseNatTok dtag, parseBoolTok red, fromHex ex, fromHex rk with
-    | some tag, some dtag, some red, some ex, some rk =>
+  | 60, 60, [.bytes tag, .nat dtag, .bool red, .bytes ex, .bytes rk] =>
       withSlot fun slot => afterCollect c n slot (collectMethod slot.coll (.deliver tag dtag red ex rk))
-    | _, _, _, _, _ => (c, some .modelBadInput)
-  | 60, 50, [code, text, ex, rk] =>
-    match parseNatTok code, fromHex text, fromHex ex, fromHex rk with
-    | some code, some text, some ex, some rk =>
+  | 60, 50, [.nat code, .bytes text, .bytes ex, .bytes rk] =>
       withSlot fun slot => afterCollect c n slot (collectMethod slot.coll (.ret code text ex rk))
-    | _, _, _, _ => (c, some .modelBadInput)
-  | 60, 71, [dtag, red, ex, rk, count] =>
-    match parseNatTok dtag, parseBoolTok red, fromHex ex, fromHex rk, parseNatTok count with
-    | some dtag, some red, some ex, some rk, some count =>
+  | 60, 71, [.nat dtag, .bool red, .bytes ex, .bytes rk, .nat count] =>
       withSlot fun slot => afterCollect c n slot (collectMethod slot.coll (.get dtag red ex rk count))
-    | _, _, _, _, _ => (c, some .modelBadInput)
   -- get-empty
   | 60, 72, _ => withSlot fun slot => sendReply c slot.lid .getNone
   -- publisher confirms
-  | 60, 80, [dtag, mult] =>
-    match parseNatTok dtag, parseBoolTok mult with
-    | some dtag, some mult => withSlot fun slot => (trySendConfirm c n slot (.confirm true dtag mult), none)
-    | _, _ => (c, some .modelBadInput)
-  | 60, 120, [dtag, mult] =>
-    match parseNatTok dtag, parseBoolTok mult with
-    | some dtag, some mult => withSlot fun slot => (trySendConfirm c n slot (.confirm false dtag mult), none)
-    | _, _ => (c, some .modelBadInput)
+  | 60, 80, [.nat dtag, .bool mult] =>
+      withSlot fun slot => (trySendConfirm c n slot (.confirm true dtag mult), none)
+  | 60, 120, [.nat dtag, .bool mult] =>
+      withSlot fun slot => (trySendConfirm c n slot (.confirm false dtag mult), none)
   | _, _, _ =>
     if isGenericReply cls mid then
       withSlot fun slot => sendReply c slot.lid (.method cls mid fields)
@@ -589,16 +565,13 @@ def process (c : Conn) (f : Frame) (dbgClass dbgFrame : Bytes) : Conn × Option 
     match f with
     | .heartbeat 0 => (c, none)
     | .heartbeat _ => (c, some .frameUnexpected)
-    | .method 0 10 50 [code, text] =>
-      match parseNatTok code, fromHex text with
-      | some code, some text =>
+    | .method 0 10 50 [.nat code, .bytes text] =>
         let c1 := sealOut (pushOut c connectionCloseOk)
         let c2 := { c1 with st := .serverClosing code text }
         -- the channel-0 slot (owned by the old state value) is dropped
         let c3 := setLink c2 0 { (getLink c2 0) with ioAlive := false, fifo := [] }
         let c4 := { c3 with blockedL := none, allocReq := [], blockedFifo := [] }
         drainSlots c4 (.err (.serverClosedConnection code text)) (.serverClosedConnection code text)
-      | _, _ => (c, some .modelBadInput)
     | .method 0 10 51 _ =>
       -- blocking `send` on the channel-0 reply queue
       let l := getLink c 0
@@ -610,10 +583,7 @@ def process (c : Conn) (f : Frame) (dbgClass dbgFrame : Bytes) : Conn × Option 
         let c3 := setLink c2 0 { (getLink c2 0) with ioAlive := false, fifo := [] }
         let c4 := { c3 with blockedL := none, allocReq := [], blockedFifo := [] }
         drainSlots c4 (.err .clientClosedConnection) .clientClosedConnection
-    | .method 0 10 60 [reason] =>
-      match fromHex reason with
-      | some reason => (trySendBlocked c (.blocked reason), none)
-      | none => (c, some .modelBadInput)
+    | .method 0 10 60 [.bytes reason] => (trySendBlocked c (.blocked reason), none)
     | .method 0 10 61 _ => (trySendBlocked c .unblocked, none)
     | .method 0 _ _ _ =>
       let c1 := clientException c 540 (asciiBytes "do not know how to handle channel 0 method " ++ dbgClass)
